@@ -466,7 +466,8 @@ class X86TableGen extends core.TableGen {
     return x86isa.query({ name: name, filter: function(inst) {
       if (inst.ext.AVX10_2 && inst.prefix === "EVEX" && avx10_2_evex.test(inst.name))
         return true;
-      return !inst.ext.APX_F && !inst.ext.AVX10_1 && !inst.ext.AVX10_2;
+      // MSR_IMM (VEX encoded RDMSR and WRMSRNS that use an immediate operand) is not supported by the assembler.
+      return !inst.ext.APX_F && !inst.ext.AVX10_1 && !inst.ext.AVX10_2 && !inst.ext.MSR_IMM;
     }});
   }
 
